@@ -53,6 +53,7 @@ OPEN = None  # open known-finding signatures, loaded lazily
 
 SIG_REGULAR_TO_LINK = 'C06/file/regular-replaced-by-link/missing'
 SIG_V1_TORN_ENTRY = 'C06/compact1/torn-index-entry-across-page'
+_UNREADABLE = object()
 
 
 def open_sigs():
@@ -251,11 +252,48 @@ class TileBackend(object):
     def op_addresses(self, op):
         return [(tuple(t['coord']), op['dim'] if self.dims else 0) for t in op['tiles']]
 
+    def _bundle_key(self, coord):
+        x, y, z = coord
+        return (x // 128, y // 128, z) if self.kind != 'file' else None
+
+    def followups(self):
+        """stores a restarted process may do next on the crashed directory (post-crash continuation):
+        'neighbour' = a DIFFERENT address in the same bundle / directory as the first batch tile,
+        'prior-overwrite' = overwrite of a prior address that is not part of the store under test
+        (compact: preferably one in a bundle the store under test writes to).  [(variant, op, address)]"""
+        store = self.case['store']
+        batch = set(self.op_addresses(store))
+        d = store['dim'] if self.dims else 0
+        x, y, z = store['tiles'][0]['coord']
+        cands = [(x ^ 1, y, z), (x, y ^ 1, z), (x ^ 1, y ^ 1, z)]
+        if self.kind == 'file':
+            cands = [c for c in cands if c[0] < 2 ** z and c[1] < 2 ** z] + [(0, 0, 1), (1, 1, 1), (0, 1, 1)]
+        out = []
+        for c in cands:
+            if (c, d) not in batch:
+                out.append(('neighbour', {'kind': 'store', 'dim': d, 'tiles': [
+                    {'coord': list(c), 'img': {'color': None, 'size': 700, 'tag': 900001}}]}, (c, d)))
+                break
+        taken = set(a for _, _, a in out)
+        prior = []
+        for o in self.case['history']:
+            if o['kind'] != 'remove':
+                prior.extend(a for a in self.op_addresses(o) if a not in batch and a not in taken and a not in prior)
+        if prior:
+            bkeys = set(self._bundle_key(c) for c, _ in batch)
+            same = [a for a in prior if self.kind != 'file' and self._bundle_key(a[0]) in bkeys]
+            a = (same or prior)[0]
+            out.append(('prior-overwrite', {'kind': 'store', 'dim': a[1], 'tiles': [
+                {'coord': list(a[0]), 'img': {'color': None, 'size': 0, 'tag': 900002}}]}, a))
+        return out
+
     def addresses(self):
-        """prior + batch + sampled others (east neighbour of each batch tile; same tile, next dimension)"""
+        """prior + batch + follow-up addresses + sampled others (east neighbour of each batch tile; same tile,
+        next dimension)"""
         out = []
         for o in self.case['history'] + [self.case['store']]:
             out.extend(self.op_addresses(o))
+        out.extend(a for _, _, a in self.followups())
         for (x, y, z), d in self.op_addresses(self.case['store']):
             if self.kind == 'file':
                 if (x + 1) < 2 ** z:
@@ -318,6 +356,9 @@ class LegendBackend(object):
     kind = 'legend'
     dims = False
 
+    def followups(self):
+        return []
+
     def __init__(self, case):
         self.case = case
         self.cfg = case['cfg']
@@ -371,6 +412,9 @@ def _progress_status(op):
 class ProgressBackend(object):
     kind = 'progress'
     dims = False
+
+    def followups(self):
+        return []
 
     def __init__(self, case):
         self.case = case
@@ -525,6 +569,7 @@ def record_case(case, root):
     r.be, r.case, r.ops, r.pre, r.live = be, case, rec.ops, pre, live
     r.addrs, r.old, r.new, r.old_repr, r.new_repr = addrs, old, new, old_repr, new_repr
     r.batch = set(be.op_addresses(case['store']))
+    r.followups = be.followups()
     r.shares = shares
     r.seed = seed
     r.outside = rec.outside
@@ -600,6 +645,7 @@ def check_state(r, state_dir, k, cut, stats, tolerate=True, restore=True):
         except Exception as e:
             return core.Violation('C06/%s/%s/open-raises' % (case['backend'], loc),
                                   '%s: opening the cache/progress store raises %r' % (where, e), vcase)
+        seen = {}
         for a in r.addrs:
             old, new = r.old[a], r.new[a]
             in_batch = a in r.batch
@@ -608,6 +654,7 @@ def check_state(r, state_dir, k, cut, stats, tolerate=True, restore=True):
                 exc = None
             except Exception as e:  # a reader must get old, new or missing - never an exception
                 got, exc = None, e
+            seen[a] = got if exc is None else _UNREADABLE
             allowed = (old, new) if in_batch else (old,)
             missing_rule = None
             if exc is not None:
@@ -651,6 +698,17 @@ def check_state(r, state_dir, k, cut, stats, tolerate=True, restore=True):
             return core.Violation(sig, msg, vcase)
         if not restore:
             return None
+        # --- post-crash continuation: a restarted process stores something ELSE first.  What was visible right
+        # after the crash must not change or vanish because of it.
+        for variant, fop, faddr in r.followups:
+            cdir = state_dir + '-' + variant
+            fsrec.copy_tree(state_dir, cdir)
+            try:
+                v = _continuation(r, cdir, variant, fop, faddr, seen, split, tolerate, loc, where, vcase, stats)
+            finally:
+                shutil.rmtree(cdir, ignore_errors=True)
+            if v is not None:
+                return v
         # --- restart: the same store again on the crashed directory (stale lock / temp files must not matter)
         try:
             be.apply(be.make(state_dir), case['store'])
@@ -672,6 +730,37 @@ def check_state(r, state_dir, k, cut, stats, tolerate=True, restore=True):
                 return core.Violation('C06/%s/%s/next-store-wrong' % (case['backend'], loc),
                                       '%s: after repeating the store, %r reads %s, expected %s'
                                       % (where, a, _fmt(got), _fmt(want)), vcase)
+    return None
+
+
+def _continuation(r, cdir, variant, fop, faddr, seen, split, tolerate, loc, where, vcase, stats):
+    be, case = r.be, r.case
+    stats.notes['continuation-states:' + variant] += 1
+    try:
+        be.apply(be.make(cdir), fop)
+    except Exception as e:
+        kind = 'stale-lock-blocks-next-store' if type(e).__name__ == 'LockTimeout' else 'followup-%s-raises' % variant
+        return core.Violation('C06/%s/%s/%s' % (case['backend'], loc, kind),
+                              '%s: a follow-up store of %r after restart raises %r' % (where, faddr, e), vcase)
+    reader = be.make(cdir)
+    want_f = payload(fop['tiles'][0]['img'])
+    for a in r.addrs:
+        if a in split and tolerate and SIG_V1_TORN_ENTRY in open_sigs():
+            continue  # the known torn v1 index entry points at arbitrary bytes
+        if seen[a] is _UNREADABLE and a != faddr:
+            continue  # only reachable for a tolerated known deviation (anything else was reported above)
+        try:
+            got = be.read(reader, a)
+        except Exception as e:
+            return core.Violation('C06/%s/%s/followup-%s-unreadable' % (case['backend'], loc, variant),
+                                  '%s: after a follow-up store of %r, reading %r raises %r' % (where, faddr, a, e), vcase)
+        want = want_f if a == faddr else seen[a]
+        if got != want:
+            kind = 'not-stored' if a == faddr else ('changes-batch-tile' if a in r.batch else 'changes-other-tile')
+            return core.Violation('C06/%s/%s/followup-%s-%s' % (case['backend'], loc, variant, kind),
+                                  '%s: after a follow-up store of %r by a restarted process, %r reads %s; right after '
+                                  'the crash it read %s%s' % (where, faddr, a, _fmt(got), _fmt(want),
+                                                             ' (the follow-up content)' if a == faddr else ''), vcase)
     return None
 
 
